@@ -267,15 +267,15 @@ def check_site(ctx: RuleContext, r, site: Site):
                 ok = False
                 ctx.bad("C04.1", f, n.ast, "an accepting return is reached after the bindings were rolled back: "
                         "a passing check would bind nothing", path=fl.witness(n, stt))
-    if g.exit in [s for _, s in []]:
-        pass
-    # fall off the end
-    for k, p in g.exit.pred:
-        if p.kind != "return" and k != "ret":
-            for stt in fl.states_at(p):
-                if stt[0] == "dirty" or node_mut.get(p.id):
-                    ctx.bad("C04.1", f, p.ast or f.node, "the function can fall off its end with bindings of an undecided check in place")
-                    ok = False
+    # fall off the end (implicit `return None`: a rejecting verdict)
+    for k, p in g.falloff.pred:
+        if g.falloff.id not in g.reachable:
+            break
+        for stt in fl.states_at(g.falloff):
+            if stt[0] == "dirty":
+                ctx.bad("C04.1", f, p.ast if p.ast is not None else f.node,
+                        "the function can fall off its end (returning None) with bindings of the check in place")
+                ok = False
     if ok:
         ctx.ok("C04.1", f.qualname,
                f"rollback typestate holds on {fl.steps} product states: raising exits clean, rejecting returns restored, accepting returns keep bindings")
